@@ -1085,3 +1085,222 @@ func isBaselineFunc(fn *ssa.Function) bool {
 	}
 	return true
 }
+
+// ---------- canonical branch facts ----------
+
+// canonCond is a comparison known to be TRUE at a block, with negation folded into the operator.
+type canonCond struct {
+	Op   token.Token // EQL NEQ LSS LEQ GTR GEQ, or ILLEGAL for a non-comparison value known to be (Sense)
+	X, Y ssa.Value
+	V    ssa.Value // for non-comparisons
+	True bool
+	If   *ssa.If
+}
+
+func negOp(op token.Token) token.Token {
+	switch op {
+	case token.EQL:
+		return token.NEQ
+	case token.NEQ:
+		return token.EQL
+	case token.LSS:
+		return token.GEQ
+	case token.GEQ:
+		return token.LSS
+	case token.GTR:
+		return token.LEQ
+	case token.LEQ:
+		return token.GTR
+	}
+	return token.ILLEGAL
+}
+
+func mirrorOp(op token.Token) token.Token {
+	switch op {
+	case token.LSS:
+		return token.GTR
+	case token.GTR:
+		return token.LSS
+	case token.LEQ:
+		return token.GEQ
+	case token.GEQ:
+		return token.LEQ
+	}
+	return op
+}
+
+// canonOf folds negations into a condition.
+func canonOf(c Cond) canonCond {
+	c = normCond(c)
+	if b, ok := c.V.(*ssa.BinOp); ok {
+		op := b.Op
+		if negOp(op) != token.ILLEGAL {
+			if !c.Sense {
+				op = negOp(op)
+			}
+			return canonCond{Op: op, X: b.X, Y: b.Y, If: c.If, True: true}
+		}
+	}
+	return canonCond{Op: token.ILLEGAL, V: c.V, True: c.Sense, If: c.If}
+}
+
+// factsAt: the canonical branch facts that hold on entry to b.
+func factsAt(b *ssa.BasicBlock) []canonCond {
+	var out []canonCond
+	for _, c := range condsFor(b) {
+		out = append(out, canonOf(c))
+	}
+	return out
+}
+
+// cmpHolds: some fact at b states  x op y  (in either operand order) for operands accepted by mx, my.
+func cmpHolds(facts []canonCond, mx, my func(ssa.Value) bool, ops ...token.Token) bool {
+	has := func(op token.Token) bool {
+		for _, o := range ops {
+			if o == op {
+				return true
+			}
+		}
+		return false
+	}
+	for _, f := range facts {
+		if f.Op == token.ILLEGAL {
+			continue
+		}
+		if mx(f.X) && my(f.Y) && has(f.Op) {
+			return true
+		}
+		if mx(f.Y) && my(f.X) && has(mirrorOp(f.Op)) {
+			return true
+		}
+	}
+	return false
+}
+
+// knownNonNil: v != nil holds at b.
+func knownNonNil(facts []canonCond, mv func(ssa.Value) bool) bool {
+	return cmpHolds(facts, mv, isNilConst, token.NEQ)
+}
+
+// knownNonEmpty: len(v) > 0 holds (spelled > 0, != 0, >= 1, or mirrored).
+func knownNonEmpty(facts []canonCond, mv func(ssa.Value) bool) bool {
+	isLen := func(x ssa.Value) bool {
+		c, ok := x.(*ssa.Call)
+		return ok && isCall(c, "builtin len") && mv(c.Call.Args[0])
+	}
+	isK := func(k int64) func(ssa.Value) bool {
+		return func(x ssa.Value) bool { n, ok := constInt(x); return ok && n == k }
+	}
+	return cmpHolds(facts, isLen, isK(0), token.GTR, token.NEQ) || cmpHolds(facts, isLen, isK(1), token.GEQ)
+}
+
+// ---------- feasible reachability (constant propagation of phis along the path) ----------
+
+// evalConstCond evaluates cond to a boolean if, with the phi values fixed by the path walked so
+// far, it is a boolean constant (possibly negated).
+func evalConstCond(cond ssa.Value, env map[*ssa.Phi]ssa.Value) (val, ok bool) {
+	cond = resolvePhi(cond, env)
+	switch x := cond.(type) {
+	case *ssa.Const:
+		if x.Value != nil && x.Value.Kind() == constant.Bool {
+			return constant.BoolVal(x.Value), true
+		}
+	case *ssa.UnOp:
+		if x.Op == token.NOT {
+			v, ok := evalConstCond(x.X, env)
+			return !v, ok
+		}
+	case *ssa.BinOp:
+		if x.Op == token.EQL || x.Op == token.NEQ {
+			l, lok := evalConstCond(x.X, env)
+			r, rok := evalConstCond(x.Y, env)
+			if lok && rok {
+				return (l == r) == (x.Op == token.EQL), true
+			}
+		}
+	}
+	return false, false
+}
+
+// feasiblyReaches: starting along the edge from->to, is an instruction accepted by target reachable
+// without entering a block of avoid and without continuing past a block of stop, when branches on
+// conditions that are constant on the path (values of flags carried by phis) are followed only in
+// their feasible direction?  Conservative: an exhausted budget counts as reachable.
+func feasiblyReaches(from, to *ssa.BasicBlock, avoid, stop map[*ssa.BasicBlock]bool, target func(ssa.Instruction) bool) bool {
+	type state struct {
+		b   *ssa.BasicBlock
+		key string
+	}
+	seen := map[state]bool{}
+	budget := 20000
+	var walk func(prev, b *ssa.BasicBlock, env map[*ssa.Phi]ssa.Value) bool
+	envKey := func(env map[*ssa.Phi]ssa.Value) string {
+		var ks []string
+		for p, v := range env {
+			if c, ok := v.(*ssa.Const); ok && c.Value != nil && c.Value.Kind() == constant.Bool {
+				ks = append(ks, p.Name()+"="+c.Value.String())
+			}
+		}
+		sort.Strings(ks)
+		return strings.Join(ks, ",")
+	}
+	walk = func(prev, b *ssa.BasicBlock, env map[*ssa.Phi]ssa.Value) bool {
+		if avoid[b] {
+			return false
+		}
+		budget--
+		if budget < 0 {
+			return true
+		}
+		env2 := map[*ssa.Phi]ssa.Value{}
+		for k, v := range env {
+			env2[k] = v
+		}
+		enterBlock(env2, prev, b)
+		st := state{b, envKey(env2)}
+		if seen[st] {
+			return false
+		}
+		seen[st] = true
+		for _, in := range b.Instrs {
+			if target(in) {
+				return true
+			}
+		}
+		if stop[b] {
+			return false
+		}
+		if ifi, ok := b.Instrs[len(b.Instrs)-1].(*ssa.If); ok {
+			if v, known := evalConstCond(ifi.Cond, env2); known {
+				if v {
+					return walk(b, b.Succs[0], env2)
+				}
+				return walk(b, b.Succs[1], env2)
+			}
+		}
+		for _, s := range b.Succs {
+			if walk(b, s, env2) {
+				return true
+			}
+		}
+		return false
+	}
+	return walk(from, to, map[*ssa.Phi]ssa.Value{})
+}
+
+// knownEmpty: len(v) == 0 holds (spelled == 0, <= 0, < 1, or mirrored).
+func knownEmpty(facts []canonCond, mv func(ssa.Value) bool) bool {
+	isLen := func(x ssa.Value) bool {
+		c, ok := x.(*ssa.Call)
+		return ok && isCall(c, "builtin len") && mv(c.Call.Args[0])
+	}
+	isK := func(k int64) func(ssa.Value) bool {
+		return func(x ssa.Value) bool { n, ok := constInt(x); return ok && n == k }
+	}
+	return cmpHolds(facts, isLen, isK(0), token.EQL, token.LEQ) || cmpHolds(facts, isLen, isK(1), token.LSS)
+}
+
+// knownNil: v == nil holds.
+func knownNil(facts []canonCond, mv func(ssa.Value) bool) bool {
+	return cmpHolds(facts, mv, isNilConst, token.EQL)
+}
